@@ -256,7 +256,133 @@ CHECK_DEADLOCK FALSE
 """ % (sets, mb, mr, "TRUE" if keep else "FALSE", "\n".join("INVARIANT " + i for i in invs))
 
 
+# ------------------------------------------------------------------ extension: pool API histories (PoolApi.tla)
+def record_api(sc):
+    import elfi
+    from elfi.model.elfi_model import ComputationContext
+    workdir = sc["workdir"]
+    name = "api_%d_%d" % (os.getpid(), random.getrandbits(40))
+    nodes = sc["nodes"]
+    if sc["pool"] == "array":
+        pool = elfi.ArrayPool(list(nodes), name=name, prefix=workdir)
+    else:
+        pool = elfi.OutputPool(list(nodes), name=name, prefix=workdir)
+    pool.set_context(ComputationContext(batch_size=2, seed=3))
+    events = []
+    try:
+        for op in sc["ops"]:
+            e = dict(op=op[0], i=0, n="", ns=[], v=0, raised="", obs=dict(content=[], len=0))
+            try:
+                if op[0] == "add":
+                    e["i"], e["ns"], e["v"] = op[1], op[2], op[3]
+                    pool.add_batch({n: np.full(2, float(op[3])) for n in op[2]}, op[1])
+                elif op[0] == "remove":
+                    e["i"] = op[1]
+                    pool.remove_batch(op[1])
+                elif op[0] == "rmstore":
+                    e["n"] = op[1]
+                    st = pool.remove_store(op[1])
+                    if hasattr(st, "delete"):
+                        st.delete()
+                elif op[0] == "clear":
+                    pool.clear()
+                elif op[0] == "flush":
+                    pool.flush()
+                elif op[0] == "reopen":
+                    pool.close()
+                    pool = type(pool).open(name, prefix=workdir)
+                content = []
+                for n in pool.stores:
+                    st = pool.stores[n]
+                    for i in range(8):
+                        if st is not None and i in st:
+                            vals = np.asarray(st[i]).reshape(-1)
+                            content.append([n, i, int(vals[0]) if len(vals) and np.all(vals == vals[0]) else -1])
+                e["obs"] = dict(content=content, len=int(len(pool)))
+            except Exception as ex:
+                e["raised"] = "%s: %s" % (type(ex).__name__, str(ex)[:80])
+            events.append(e)
+            if e["raised"]:
+                break
+    finally:
+        try:
+            pool.delete()
+        except Exception:
+            pass
+        shutil.rmtree(os.path.join(workdir, name), ignore_errors=True)
+    return dict(nodes=list(nodes), events=events)
+
+
+def api_scenarios(ctx):
+    rnd = random.Random(ctx.seed + 55)
+    out = []
+    for k in range(60 if ctx.quick else 600):
+        pool_kind = rnd.choice(["output", "array"])
+        nodes = rnd.sample(["a", "b", "c"], rnd.randint(1, 3))
+        # (stores are created on first use; remove_batch / clear on a pool with never-used stores raise - an
+        #  observation outside C05, see DESIGN 10 - so every history starts by adding batch 0 to all nodes)
+        ops, held = [["add", 0, list(nodes), 1]], {n: [0] for n in nodes}
+        live = list(nodes)
+        for _ in range(rnd.randint(3, 9)):
+            ch = ["add", "add", "add", "remove", "clear", "flush"] + (["reopen"] if pool_kind == "array" else []) + (["rmstore"] if len(live) > 1 else [])
+            o = rnd.choice(ch)
+            if o == "add":
+                # on-disk array stores only support appending the next batch: keep every store contiguous there
+                ns = [n for n in rnd.sample(live + ["other"], rnd.randint(1, len(live)))]
+                if pool_kind == "array":
+                    i = rnd.randint(0, 3)
+                    ns = [n for n in ns if n == "other" or i <= len(held[n])]
+                    if not ns:
+                        continue
+                else:
+                    i = rnd.randint(0, 4)
+                ops.append(["add", i, ns, rnd.randint(1, 9)])
+                for n in ns:
+                    if n in held and i not in held[n]:
+                        held[n].append(i)
+            elif o == "remove":
+                i = rnd.randint(0, 4)
+                if pool_kind == "array" and any(held[n] and i in held[n] and i != max(held[n]) for n in live):
+                    continue          # array stores only support removing their last batch
+                ops.append(["remove", i])
+                for n in live:
+                    if i in held[n]:
+                        held[n].remove(i)
+            elif o == "rmstore":
+                n = rnd.choice(live)
+                live.remove(n)
+                ops.append(["rmstore", n])
+            elif o == "clear":
+                ops.append(["clear"])
+                for n in live:
+                    held[n] = []
+            else:
+                ops.append([o])
+        out.append(dict(api=True, pool=pool_kind, nodes=nodes, ops=ops))
+    return out
+
+
+def check_api(ctx, scs):
+    workdir = os.path.join(ctx.outdir, "pools")
+    os.makedirs(workdir, exist_ok=True)
+    traces = []
+    for sc in scs:
+        sc["workdir"] = workdir
+        traces.append(record_api(sc))
+    verdicts = ctx.validate("PoolApi_Trace", traces, chunk=200, name="api")
+    for sc, tr, v in zip(scs, traces, verdicts):
+        pub = {k: sc[k] for k in sc if k != "workdir"}
+        ctx.case(str(pub), nontrivial=len(sc["ops"]) >= 4)
+        if v["verdict"] != "ok":
+            # the API model is an extension beyond the statement of C05: a mismatch is reported as drift, never as a violation
+            e = tr["events"][min(v["l"] - 2, len(tr["events"]) - 1)]
+            ctx.drifted("E:" + v["verdict"][2:], pub, detail=dict(event=e))
+    return traces
+
+
 def check_scenarios(ctx, scs):
+    if scs and scs[0].get("api"):
+        return check_api(ctx, scs)
     workdir = os.path.join(ctx.outdir, "pools")
     os.makedirs(workdir, exist_ok=True)
     traces = []
@@ -289,6 +415,18 @@ def run(ctx):
             expect_actions=["Run", "RemoveStore", "Replace"], timeout=900)
     ctx.tlc("MC_Pool", "MC_Pool_partial", cfg_text=mc_cfg("Partial", 2, 2, True, ["Transparent"]), expect_ok=False, timeout=300)
     ctx.tlc("MC_Pool", "MC_Pool_formbreak", cfg_text=mc_cfg("Stated", 2, 2, False, ["Transparent"]), expect_ok=False, timeout=300)
+    ctx.tlc("PoolApi", "MC_PoolApi", cfg_text="""SPECIFICATION Spec
+CONSTANTS
+  Nodes = {"a", "b"}
+  Batches = {0, 1, 2}
+  Vals = {1, 2}
+  MaxOps = 4
+INVARIANT LenBounds
+INVARIANT OnlyKnownNodes
+PROPERTY NeverOverwrites
+CHECK_DEADLOCK FALSE
+""", expect_actions=["Next"], timeout=900, label="PoolApi (extension)")
+    check_api(ctx, api_scenarios(ctx))
     scs = scenarios(ctx)
     traces = check_scenarios(ctx, scs)
     for i in (0, len(scs) // 2):
